@@ -194,7 +194,7 @@ def it_value(rng, pos, cond=None):
 
 
 def prepare(ctx, rng, kind, word, mode='svc', itpos='out', ns=0, nzcv=None, fill_priv=True, code=CODE,
-            itcond=None, e=0, regs=None, aif=None):
+            itcond=None, e=0, regs=None, aif=None, sp_low=0):
     """Put the CPU of ctx into a valid random machine state with `word` at the PC.  Returns a
     description (used in samples / replay)."""
     cpu = ctx.fresh()
@@ -228,14 +228,17 @@ def prepare(ctx, rng, kind, word, mode='svc', itpos='out', ns=0, nzcv=None, fill
     for n in range(15):
         v = reg_value(rng) if regs is None or regs[n] is None else regs[n]
         if n == 13:
-            v &= ~3
+            v = (v & ~3) | (sp_low & 3)
         r.set_rmode(n, r.cpsr.m, v)
         vals.append(v)
     r._R[type(next(iter(r._R))).PC] = code
     M.put_code(cpu, code, word, kind)
     r.changed_registers = [False] * 16
-    return dict(ctx=[ctx.cfgname, ctx.prot], kind=kind, word='%#x' % word, mode=mode, it=r.cpsr.it, ns=ns,
-                cpsr='%#010x' % r.cpsr.value, regs=['%#x' % v for v in vals])
+    d = dict(ctx=[ctx.cfgname, ctx.prot], kind=kind, word='%#x' % word, mode=mode, it=r.cpsr.it, ns=ns,
+             cpsr='%#010x' % r.cpsr.value, regs=['%#x' % v for v in vals])
+    if code != CODE:
+        d['code'] = '%#x' % code
+    return d
 
 
 def step(cpu):
